@@ -21,7 +21,7 @@ class Res:
     """picklable summary of one K2 run"""
     __slots__ = ("ctx", "df", "icao", "icao_opt", "pre", "post_update", "post_create", "stores", "obligations", "warnings",
                  "diverged", "steps", "wall", "calllog", "new_row", "side", "gate", "message", "gate_preds", "dl", "post_update2",
-                 "atom_vals")
+                 "atom_vals", "entered")
 
 
 def _run(args):
@@ -48,6 +48,7 @@ def _run(args):
         out.gate = out.message = out.dl = out.post_update2 = None
         out.gate_preds = []
         out.atom_vals = {}
+        out.entered = set()
         return out
     out = Res()
     out.ctx = ctx
@@ -59,6 +60,7 @@ def _run(args):
     out.post_create = getattr(r, "post_create", None)
     out.stores = r.stores
     out.obligations = r.I.obligations
+    out.entered = set(r.I.entered)
     out.warnings = r.I.warnings
     out.diverged = r.diverged
     out.steps = r.I.steps
